@@ -227,6 +227,11 @@ func runE(c caseE) error { _, err := execE(c); return err }
 func opGenE() *rapid.Generator[op] {
 	return rapid.Custom(func(t *rapid.T) op {
 		o := opGen().Draw(t, "op")
+		// through the admin API the access key travels as a query value: a third of the keys contain characters that
+		// mean something there ('+', a literal percent sequence)
+		if rapid.IntRange(0, 2).Draw(t, "odd_key") == 0 {
+			o.Key += rapid.SampledFrom([]string{"+x", "%41z", "%2Bq"}).Draw(t, "key_tail")
+		}
 		if o.Kind == "get" && rapid.IntRange(0, 2).Draw(t, "as_probe") != 0 {
 			o.Kind = "probe"
 			o.Secret = rapid.SampledFrom([]string{"s1", "s2", "s3", "s4", "s5"}).Draw(t, "probe_secret")
